@@ -917,6 +917,16 @@ Section DL.
       + rewrite S. reflexivity.
   Qed.
 
+  (* destroy: every node is released and the list is, observably, a fresh one *)
+  Lemma dl_destroy_fresh : forall d l, dl_wf d l ->
+    exists d', dl_step T teqb (LDestroy T) d = Ok (d', LUnit T) /\ dl_wf d' [] /\ dl_contents T d' = Ok [].
+  Proof.
+    intros d l W. pose proof (dl_step_refines (LDestroy T) d l W) as S. cbn [ll_step] in S.
+    destruct S as (d' & idx & E & W' & V). exists d'. split; [exact E|].
+    assert (idx = []) as -> by (destruct idx; [reflexivity|discriminate]).
+    split; [assumption|]. rewrite (dl_contents_ok d' [] W'). reflexivity.
+  Qed.
+
   Lemma dl_empty_wf : dl_wf (dl_empty T) [] /\ vals (larena (dl_empty T)) [] = [].
   Proof.
     split; [|reflexivity]. apply wf_intro; [constructor|reflexivity|reflexivity|].
